@@ -675,14 +675,73 @@ NAMES = {"VCALENDAR": ["a.ics", "b.ics", "c.ics"], "VADDRESSBOOK": ["a.vcf", "b.
 STAMP = "DTSTAMP:20130101T000000Z\r\n"
 
 
+# Body variants.  0..7: plain objects (0..3 of equal size, 7 a VTODO).  8..: one per clean-up that Radicale applies to
+# an uploaded object (item/__init__.py read_components + check_and_sanitize_items) or that vobject applies when it
+# re-serialises: the entry written at upload time must equal what a cold derivation of the STORED file gives, on both
+# upload paths (PUT of one item, PUT of a whole collection).  This is the assumption `derive` abstracts (op_ok).
+NK = 16
+
+
+def component(tag, uid, k):
+    """The VEVENT / VTODO / VCARD block of variant k."""
+    if tag == "VADDRESSBOOK":
+        fn = ("n%d" % k) if k < 4 else "a longer name %d" % k
+        extra = ""
+        if k == 8:      # PHOTO given as a data URI
+            extra = "PHOTO;ENCODING=b;TYPE=JPEG:data:image/jpeg;base64,QUJDREVGR0g=\r\n"
+        elif k == 9:    # control characters in a value
+            fn = "ctl\x01\x02 name\x0b"
+        elif k == 10:   # folded long line, escaped characters
+            extra = "NOTE:" + "x" * 70 + "\r\n " + "y" * 30 + "\\, semi\\; nl\\n end\r\n"
+        elif k == 11:   # vCard 4.0 with parameters
+            return ("BEGIN:VCARD\r\nVERSION:4.0\r\nUID:%s\r\nFN:v4 %d\r\nEMAIL;TYPE=work:a@b.example\r\n"
+                    "TEL;VALUE=uri;TYPE=\"voice,home\":tel:+1-555\r\nEND:VCARD\r\n" % (uid, k))
+        elif k == 12:   # quoted-printable 2.1 card
+            return ("BEGIN:VCARD\r\nVERSION:2.1\r\nUID:%s\r\nFN;CHARSET=UTF-8;ENCODING=QUOTED-PRINTABLE:J=C3=BCrgen\r\n"
+                    "N:J;;;;\r\nEND:VCARD\r\n" % uid)
+        elif k == 13:   # PHOTO data URI with other parameter order and lower case
+            extra = "PHOTO;TYPE=PNG;ENCODING=b:data:image/png;base64,QUJD\r\n"
+        return "BEGIN:VCARD\r\nVERSION:3.0\r\nUID:%s\r\nFN:%s\r\nN:%s;;;;\r\n%sEND:VCARD\r\n" % (uid, fn, fn, extra)
+    if k == 7:
+        return "BEGIN:VTODO\r\nUID:%s\r\nSUMMARY:todo%d\r\nDUE:20130903T120000Z\r\n%sEND:VTODO\r\n" % (uid, k, STAMP)
+    day = 1 + k % 5
+    summary = ("s%d" % k) if k < 4 else "a longer summary %d" % k
+    start = "DTSTART:201309%02dT180000Z\r\n" % day
+    end = "DTEND:201309%02dT190000Z\r\n" % day
+    extra = ""
+    if k == 8:          # control characters in a value
+        summary = "ctl\x01\x02 summary\x0c\x1f"
+    elif k == 9:        # Lightning: DTEND together with DURATION:PT0S
+        extra = "DURATION:PT0S\r\n"
+    elif k == 10:       # Evolution: EXDATE with VALUE=DATE next to a floating DATE-TIME DTSTART
+        start, end = "DTSTART:201309%02dT180000\r\n" % day, "DTEND:201309%02dT190000\r\n" % day
+        extra = "RRULE:FREQ=DAILY;COUNT=5\r\nEXDATE;VALUE=DATE:201309%02d\r\n" % (day + 1)
+    elif k == 11:       # RDATE with VALUE=DATE next to a UTC DATE-TIME DTSTART
+        extra = "RDATE;VALUE=DATE:201309%02d,201309%02d\r\n" % (day + 2, day + 3)
+    elif k == 12:       # EXDATE DATE-TIME next to an all-day DTSTART, and RDATE;VALUE=DATE with a TZID DTSTART is left out (needs VTIMEZONE)
+        start, end = "DTSTART;VALUE=DATE:201309%02d\r\n" % day, "DTEND;VALUE=DATE:201309%02d\r\n" % (day + 1)
+        extra = "RRULE:FREQ=DAILY;COUNT=4\r\nEXDATE:201309%02dT000000Z\r\n" % (day + 1)
+    elif k == 13:       # folded long line, escaped characters, parameters with quoting
+        extra = ("DESCRIPTION:" + "x" * 66 + "\r\n " + "y" * 40 + "\\, semi\\; nl\\n end\r\n"
+                 "ATTENDEE;CN=\"Doe, John\";ROLE=REQ-PARTICIPANT:mailto:j@x.example\r\n")
+    elif k == 14:       # VALARM, lower-case property names, X- property with parameter
+        extra = "BEGIN:VALARM\r\nACTION:DISPLAY\r\nTRIGGER:-PT15M\r\nDESCRIPTION:r\r\nEND:VALARM\r\nx-foo;x-bar=1:baz\r\ncategories:a,b\r\n"
+    elif k == 15:       # DTEND + DURATION:PT0S and EXDATE;VALUE=DATE and control characters together, LF-only line ends later
+        summary = "all\x07 quirks"
+        extra = "DURATION:PT0S\r\nRRULE:FREQ=DAILY;COUNT=5\r\nEXDATE;VALUE=DATE:201309%02d\r\nRDATE;VALUE=DATE:201309%02d\r\n" % (day + 1, day + 7)
+    return "BEGIN:VEVENT\r\nUID:%s\r\nSUMMARY:%s\r\n%s%s%s%sEND:VEVENT\r\n" % (uid, summary, start, end, extra, STAMP)
+
+
 def item_body(tag, uid, k):
     if tag == "VADDRESSBOOK":
-        return impl.contact(uid, fn=("n%d" % k) if k < 4 else "a longer name %d" % k)
-    if k == 7:
-        return impl.todo(uid, summary="todo%d" % k, extra="DUE:20130903T120000Z\r\n" + STAMP)
-    day = 1 + k % 5
-    return impl.event(uid, summary=("s%d" % k) if k < 4 else "a longer summary %d" % k,
-                      dtstart="201309%02dT180000Z" % day, dtend="201309%02dT190000Z" % day, extra=STAMP)
+        return component(tag, uid, k)
+    body = "BEGIN:VCALENDAR\r\nPRODID:-//verif//EN\r\nVERSION:2.0\r\n" + component(tag, uid, k) + "END:VCALENDAR\r\n"
+    return body.replace("\r\n", "\n") if k == 15 else body
+
+
+def draw_k(rng):
+    """Body variant: a third of the uploads carry something Radicale or vobject cleans up."""
+    return rng.randrange(8) if rng.random() < 0.65 else rng.randrange(8, NK)
 
 
 def ext_body(tag, uid, k, size=None):
@@ -699,11 +758,12 @@ def ext_body(tag, uid, k, size=None):
     return mk("q" * (size - base))
 
 
-def whole_calendar(uids, k):
-    day = 1 + k % 5
-    evs = "".join("BEGIN:VEVENT\r\nUID:%s\r\n%sSUMMARY:w%d\r\nDTSTART:2013090%dT100000Z\r\nDTEND:2013090%dT110000Z\r\nEND:VEVENT\r\n"
-                  % (u, STAMP, k, day, day) for u in uids)
-    return "BEGIN:VCALENDAR\r\nPRODID:-//verif//EN\r\nVERSION:2.0\r\n" + evs + "END:VCALENDAR\r\n"
+def whole_collection(tag, uids, k):
+    """Body of a PUT of a whole collection: the objects of variants k, k+1, .. one per uid."""
+    comps = "".join(component(tag, u, k if i == 0 else (k + 3 * i) % NK) for i, u in enumerate(uids))
+    if tag == "VADDRESSBOOK":
+        return comps
+    return "BEGIN:VCALENDAR\r\nPRODID:-//verif//EN\r\nVERSION:2.0\r\n" + comps + "END:VCALENDAR\r\n"
 
 
 PROPFIND = ('<?xml version="1.0"?><D:propfind xmlns:D="DAV:" xmlns:CS="http://calendarserver.org/ns/"><D:prop>'
@@ -739,7 +799,7 @@ def gen_history(rng, n):
     for c in colls:
         for nme in NAMES[COLLS[c]][:2]:
             if rng.random() < 0.8:
-                hist.append(("put", c, nme, nme.split(".")[0], rng.randrange(8)))
+                hist.append(("put", c, nme, nme.split(".")[0], draw_k(rng)))
     while len(hist) < n:
         x = rng.random()
         c = rng.choice(colls)
@@ -747,7 +807,7 @@ def gen_history(rng, n):
         if x < 0.26:
             nme = name_in(c)
             uid = nme.split(".")[0] if rng.random() < 0.85 else rng.choice("abc")
-            hist.append(("put", c, nme, uid, rng.randrange(8)))
+            hist.append(("put", c, nme, uid, draw_k(rng)))
         elif x < 0.36:
             hist.append(("get", c, name_in(c)))
         elif x < 0.45:
@@ -773,10 +833,12 @@ def gen_history(rng, n):
         elif x < 0.845:
             hist.append(("delcoll", c))
             hist.append(("mk", c))
-        elif x < 0.875:
-            if tag == "VCALENDAR":
-                hist.append(("putall", c, rng.sample(["a", "b", "c", "bulk1", "bulk2"], rng.randint(1, 3)), rng.randrange(8)))
-        elif x < 0.89:
+        elif x < 0.895:
+            hist.append(("putall", c, rng.sample(["a", "b", "c", "bulk1", "bulk2"] if tag == "VCALENDAR" else ["a", "b", "bulk1"],
+                                                 rng.randint(1, 3)), draw_k(rng)))
+            if rng.random() < 0.6:
+                hist.append(("propfind", c, "1"))
+        elif x < 0.905:
             hist.append(("getcoll", c))
         else:
             nme = name_in(c)
@@ -825,7 +887,7 @@ def perform(run, d, failures):
     if k == "delcoll":
         return _resp(run, "DELETE", "/%s/" % d[1])
     if k == "putall":
-        return _resp(run, "PUT", "/%s/" % d[1], whole_calendar(d[2], d[3]))
+        return _resp(run, "PUT", "/%s/" % d[1], whole_collection(COLLS[d[1]], d[2], d[3]))
     if k == "getcoll":
         return _resp(run, "GET", "/%s/" % d[1])
     if k == "ext":
@@ -998,7 +1060,7 @@ def manipulate(run, rng, pool, counts, nxt=None):
             cfg = dict(run.cfg, sub=rng.choice([x for x in (0, 1, 2) if x != run.cfg["sub"]]))
             run.reconfigure(cfg)
             counts["manip:switch-location"] += 1
-        elif x < 0.89:
+        elif x < 0.905:
             cfg = dict(run.cfg, ver=1 - run.cfg["ver"])
             run.reconfigure(cfg)
             counts["manip:switch-cache-version"] += 1
